@@ -377,7 +377,13 @@ class _Sym:
         return f"?{short(t, 50)}"
 
     def block(self, body: List[ast.stmt], env: Dict[str, str]) -> Optional[Dict[str, str]]:
-        for s in body:
+        for idx, s in enumerate(body):
+            # guard form inside the loop over the operands: `if c: A ; continue` ; REST  ==  `if c: A else: REST`
+            if isinstance(s, ast.If) and not s.orelse and s.body and isinstance(s.body[-1], ast.Continue):
+                s = ast.copy_location(ast.If(test=s.test, body=s.body[:-1] or [ast.Pass()], orelse=list(body[idx + 1:]) or [ast.Pass()]), s)
+                return self.block([s], env)
+            if isinstance(s, ast.Pass):
+                continue
             if isinstance(s, ast.Expr) and isinstance(s.value, ast.Constant):
                 continue
             if isinstance(s, ast.Assert):
